@@ -5,7 +5,7 @@ whose provenance is "existing" is destroy()ed before its header/payload is
 overwritten, (d) destroy() frees exactly what each owning kind owns, (e) owning
 raw-pointer fields are assigned only after a release, from a realloc of
 themselves, or by a move that nulls the source (DESIGN.md section 5/C13)."""
-from ..core import get_facts, strip, strip_expect, cval, show, walk, locline, is_this_member, AnalysisBroken
+from ..core import get_facts, strip, strip_expect, cval, show, walk, locline, is_this_member, AnalysisBroken, callee_of, fn_nulls_member, fn_calls
 from ..e2_dom import Must
 from ..witness import run_group
 
@@ -449,12 +449,12 @@ def clause_e(facts, rep):
                     pid = [p['id'] for p in f.params]
                     Mv = Must(f, gen_stmt=lambda s, own=own: ['nulled'] if any(x.get('k') == 'bin' and x['op'] == '=' and strip(x['l']).get('k') == 'member' and strip(x['l']).get('name') == own and
                                                                                  not is_this_member(x['l']) and cval(x['r']) == 0 for x in walk(s)) or
-                              any(x.get('k') == 'call' and x.get('cname') == 'setZero' for x in walk(s)) else [])
+                              any(x.get('k') == 'call' and x.get('obj') is not None and (strip(x['obj']) or {}).get('k') != 'this' and fn_nulls_member(callee_of(facts, x), own, 2, facts) for x in walk(s)) else [])
                     ex = Mv.IN.get(f.exit)
                     nulled = ex is not None and 'nulled' in ex
                     released = True
                     if not f.d.get('ctor'):
-                        Mr = Must(f, gen_stmt=lambda s: ['rel'] if any(x.get('k') == 'call' and x.get('cname') in ('TearDown', 'free') for x in walk(s)) else [])
+                        Mr = Must(f, gen_stmt=lambda s: ['rel'] if any(x.get('k') == 'call' and (x.get('cname') == 'free' or fn_calls(callee_of(facts, x), ('free',), 2, facts)) for x in walk(s)) else [])
                         st = Mr.at(bid, i)
                         released = st is not None and 'rel' in st
                     moved = nulled and released
